@@ -173,6 +173,11 @@ def run(ctx):
                     if auth_len != hl:
                         problems.append(f"auth_len {auth_len} != signature size {hl}")
                     unpadded = stub + ((b"\x00" * (-n % 4) + vtb) if use_vt else b"")
+                    if hl and (auth_len != hl or len(wire) < 24 + hl + 8):
+                        # (no room for / no declaration of the security trailer: reported above; nothing further to take apart)
+                        ctx.violation("request framing: " + (problems[0] if problems else "PDU too short for its security trailer"),
+                                      {"stub_len": n, "vt": use_vt, "header_len": hl, "sign": sign, "async": use_async, "prior_stub_lens": list(prior)}, hx(wire)[:120], "see DESIGN C13")
+                        continue
                     if hl:
                         tr = len(wire) - hl - 8
                         pad = wire[tr + 2]
